@@ -21,7 +21,8 @@ deriving Repr, DecidableEq, Inhabited
 error (I/O error, undecodable NOTIFICATION body) -/
 inductive RErr where
   | notif (n : Notif) (out : Bool)
-  | other
+  | eof            -- `io.ReadFull` failed: the stream ended (or the connection broke) before a whole header / body
+  | other          -- any other error (an undecodable NOTIFICATION body)
   | panic
 deriving Repr, DecidableEq, Inhabited
 
@@ -52,7 +53,7 @@ def messageFromBytes (b : Bytes) (t : UInt8) : Except RErr RMsg :=
 /-- one iteration of the `for` in `fsm.read`: the next message and the rest of the stream, or
 the error that ends the reader -/
 def readOne (s : Bytes) : Except RErr (RMsg × Bytes) :=
-  if s.length < Gen.headerLength then .error .other            -- io.ReadFull: EOF / unexpected EOF
+  if s.length < Gen.headerLength then .error .eof              -- io.ReadFull: EOF / unexpected EOF
   else
     let header := s.take Gen.headerLength
     let rest := s.drop Gen.headerLength
@@ -65,7 +66,7 @@ def readOne (s : Bytes) : Except RErr (RMsg × Bytes) :=
         .error (.notif ⟨Gen.NOTIF_CODE_MESSAGE_HEADER_ERR, Gen.NOTIF_SUBCODE_BAD_MESSAGE_LEN, []⟩ true)
       else
         let bodyLen := len - Gen.headerLength
-        if rest.length < bodyLen then .error .other
+        if rest.length < bodyLen then .error .eof
         else
           match messageFromBytes (rest.take bodyLen) (header.getD 18 0) with
           | .ok m => .ok (m, rest.drop bodyLen)
